@@ -140,7 +140,12 @@ pub fn float_spelling(bits: u64) -> String {
     } else if a == 18446744073709551616.0 {
         "18446744073709551616.0".to_string()
     } else {
-        format!("{}", a)
+        let t = format!("{}", a);
+        if t.contains('.') {
+            t
+        } else {
+            format!("{}.0", t)
+        }
     };
     if neg {
         format!("(0.0-{})", s)
